@@ -104,7 +104,7 @@ fn run_set<S: PS>(ctx: &Ctx) -> Acc {
         acc.merge(a);
     }
     // ---------------- random pk strings, hostile sk strings, behaviour ---------------------------
-    let n_jobs = ctx.budget(32, 256) as usize;
+    let n_jobs = ctx.budget(32, 1024) as usize;
     let per_job_pk = ctx.budget(60, 2000) as usize;
     let accs = par_map(n_jobs, |ji| {
         let mut a = Acc::new();
